@@ -2725,7 +2725,7 @@ template< size_t L> inline
    FixedString< L>& FixedString< L>::replaceImpl( size_t pos1, size_t count1,
       const char* str, size_t pos2, size_t count2) noexcept
 {
-   if (pos1 >= mLength)
+   if (pos1 > mLength)
       return *this;
    // the part of the string behind the replaced range, [tail_pos, mLength)
    // count1 can be max(64bit), so we cannot calc pos1 + count1
